@@ -24,6 +24,11 @@ type cliResult struct {
 }
 
 func (rt *Runtime) runCLI(w *World, cfgText, format, target string, strace []string) cliResult {
+	return rt.runCLIIn(w, cfgText, format, target, strace, "")
+}
+
+// runCLIIn: target "" means no -t flag (package goes to the working directory).
+func (rt *Runtime) runCLIIn(w *World, cfgText, format, target string, strace []string, cwdOverride string) cliResult {
 	cli := rt.Extra["cli"]
 	dir := filepath.Dir(rt.Root)
 	cfgPath := filepath.Join(dir, "cli.yaml")
@@ -31,7 +36,10 @@ func (rt *Runtime) runCLI(w *World, cfgText, format, target string, strace []str
 		return cliResult{err: err}
 	}
 	defer os.Remove(cfgPath)
-	args := []string{"package", "-f", cfgPath, "-p", format, "-t", target}
+	args := []string{"package", "-f", cfgPath, "-p", format}
+	if target != "" {
+		args = append(args, "-t", target)
+	}
 	var cmd *exec.Cmd
 	if len(strace) > 0 {
 		all := append(append([]string{}, strace...), cli)
@@ -41,6 +49,9 @@ func (rt *Runtime) runCLI(w *World, cfgText, format, target string, strace []str
 		cmd = exec.Command(cli, args...)
 	}
 	cwd, _ := os.Getwd()
+	if cwdOverride != "" {
+		cwd = cwdOverride
+	}
 	cmd.Dir = cwd
 	env := []string{"PATH=/usr/bin:/bin", "HOME=/nonexistent", "GOMAXPROCS=4", "TZ=UTC"}
 	keys := make([]string, 0, len(w.Env))
@@ -84,6 +95,8 @@ func (s *c06state) runCLITier() {
 	dir := filepath.Dir(rt.Root)
 	target := filepath.Join(dir, "target.pkg")
 	draws := s.sc.C06.PartialN
+	// leftover reports whether anything is left where the package was to go
+	leftover := func() bool { return !targetGone(target) }
 	check := func(format, class, cause string, r cliResult, wantCause []string) {
 		s.count("cli_runs", 1)
 		s.count("evaluations_extra", 1)
@@ -112,7 +125,7 @@ func (s *c06state) runCLITier() {
 					Detail: fmt.Sprintf("nfpm package -p %s: %s; exit %d but the output does not name the cause (want one of %q): %s", format, cause, r.exit, wantCause, oneLineS(scrub(rt, r.output)))})
 			}
 		}
-		if !targetGone(target) {
+		if leftover() {
 			s.violate(Violation{Oracle: "O3", Format: format, Group: "cli." + class + ".leftover", Class: "cli." + class, Case: &c,
 				Detail: fmt.Sprintf("nfpm package -p %s: %s; exit %d and a file is left at the target path", format, cause, r.exit)})
 		}
@@ -140,14 +153,10 @@ func (s *c06state) runCLITier() {
 			os.Remove(target)
 			continue
 		}
-		if w.MTimeFixed != "" && ref.Stable {
-			b, _ := os.ReadFile(target)
-			if !bytes.Equal(b, ref.F) {
-				c := Case{Format: format, Class: "cli", Invalid: "control"}
-				s.violate(Violation{Oracle: "O3", Format: format, Group: "cli.control", Class: "cli.control", Case: &c,
-					Detail: fmt.Sprintf("nfpm package -p %s without faults wrote a file that differs from the library's output: %s", format, firstDiff(b, ref.F))})
-			}
-			s.count("probe.cli_control_bytes_equal", 1)
+		// (the control run only has to succeed and leave a non-empty file;
+		// byte equality across processes and clocks is C07's business)
+		if st, err := os.Stat(target); err == nil && st.Size() > 0 {
+			s.count("probe.cli_control_ok", 1)
 		}
 		os.Remove(target)
 
@@ -170,10 +179,23 @@ func (s *c06state) runCLITier() {
 				s.count("skipped.tmpfs_mount_refused", 1)
 			} else {
 				oldTarget := target
-				target = filepath.Join(mnt, "target.pkg")
+				class := "fulldisk"
+				if draws[(fi*7+5)%len(draws)]&1 == 0 {
+					// the target is an existing directory: the package goes
+					// to <dir>/<conventional file name>
+					target = mnt
+					class = "fulldisk_dirtarget"
+					leftover = func() bool {
+						es, _ := os.ReadDir(mnt)
+						return len(es) > 0
+					}
+				} else {
+					target = filepath.Join(mnt, "target.pkg")
+				}
 				r = rt.runCLI(w, w.Config, format, target, nil)
-				check(format, "fulldisk", fmt.Sprintf("the target file system is full after %d of %d bytes", pages*4096, len(ref.F)), r, []string{"no space left"})
+				check(format, class, fmt.Sprintf("the target file system is full after %d of %d bytes", pages*4096, len(ref.F)), r, []string{"no space left"})
 				target = oldTarget
+				leftover = func() bool { return !targetGone(target) }
 				syscall.Unmount(mnt, 0)
 				if pages > 1 {
 					s.count("probe.fulldisk_mid_stream", 1)
@@ -220,8 +242,34 @@ func (s *c06state) runCLITier() {
 			}
 			restore, err := ApplyFSFault(rt.Root, w.Tree, &FSFault{Path: rf.Path, Kind: "remove"})
 			if err == nil {
-				r = rt.runCLI(w, w.Config, format, target, nil)
-				check(format, "missing."+rf.Kind, "referenced "+rf.Kind+" "+rf.Path+" is missing", r, []string{filepath.Base(rf.Path), "no such file", "no matching files"})
+				// rotate over the three ways of naming the target: a file, an
+				// existing directory, nothing (current directory)
+				tdir := filepath.Join(dir, "tdir")
+				os.RemoveAll(tdir)
+				os.MkdirAll(tdir, 0o755)
+				mode := (fi + s.sc.Run) % 3
+				if mode == 2 && s.sc.C06.SrcMode != "abs" {
+					mode = 1 // relative sources need the scenario's cwd
+				}
+				dirLeft := func() bool {
+					es, _ := os.ReadDir(tdir)
+					return len(es) > 0
+				}
+				switch mode {
+				case 0:
+					r = rt.runCLI(w, w.Config, format, target, nil)
+					check(format, "missing."+rf.Kind, "referenced "+rf.Kind+" "+rf.Path+" is missing", r, []string{filepath.Base(rf.Path), "no such file", "no matching files"})
+				case 1:
+					leftover = dirLeft
+					r = rt.runCLI(w, w.Config, format, tdir, nil)
+					check(format, "missing_dirtarget."+rf.Kind, "referenced "+rf.Kind+" "+rf.Path+" is missing (target is a directory)", r, []string{filepath.Base(rf.Path), "no such file", "no matching files"})
+				case 2:
+					leftover = dirLeft
+					r = rt.runCLIIn(w, w.Config, format, "", nil, tdir)
+					check(format, "missing_notarget."+rf.Kind, "referenced "+rf.Kind+" "+rf.Path+" is missing (no target given)", r, []string{filepath.Base(rf.Path), "no such file", "no matching files"})
+				}
+				leftover = func() bool { return !targetGone(target) }
+				os.RemoveAll(tdir)
 			}
 			if rerr := restore(); rerr != nil {
 				s.res.Trouble = "restore: " + rerr.Error()
